@@ -515,12 +515,14 @@ let c19 h =
   let b = if hyp && not shifty then begin
       (* an Enqueue call is "in its count window" from the call to its return: the only way an honest,
          healthy Batcher can be found with a non-zero figure by the audit (finding D7) *)
-      let open_calls = Hashtbl.create 8 and k = ref 0 in
+      let open_calls = Hashtbl.create 8 and k = ref 0 and last_enq_t = ref (-1) in
       List.filter_map (fun ln -> match ln.src, ln.w with
-          | "D", "act" :: "enq" :: _ -> Hashtbl.replace open_calls !k (); incr k; None
+          | "D", "act" :: "enq" :: _ -> Hashtbl.replace open_calls !k (); incr k; last_enq_t := ln.t; None
           | _, ["enqret"; cc; _] -> Hashtbl.remove open_calls (ios cc); None
           | "L", "auditfail" :: _ ->
-              let n = Hashtbl.length open_calls in
+              (* the audit's test and its reset are two steps of one instant: a call made in this very instant may
+                 lie between them even if it has already returned when the event is raised *)
+              let n = Hashtbl.length open_calls + (if !last_enq_t = ln.t && Hashtbl.length open_calls = 0 then 1 else 0) in
               Some (Printf.sprintf "c19:audit-fail%s gen=%d t=%d an audit failed on a Batcher whose costs are honest%s"
                       (if n > 0 then "-in-count-window" else "") h.gen ln.t
                       (if n > 0 then Printf.sprintf " (%d Enqueue call(s) between count and insert)" n else ""))
